@@ -91,6 +91,9 @@ def strip_fresh(v):
 def length(ev, x):
     from .evalr import Lst, Dct
 
+    if isinstance(x, App) and x.fn in ("fresh", "asarray") and x.args and isinstance(x.args[0], Tup):
+        x = x.args[0]          # np.array([1, 0], dtype=np.int64): a cast keeps the number of elements
+
     if isinstance(x, Tup) and not any(isinstance(i, Star) for i in x.items):
         return Const(len(x.items))
     if isinstance(x, Lst):
@@ -503,6 +506,10 @@ def np_call(ev, name, args, kwargs, node):
         if isinstance(x, Lst) and x.pappends and not x.items and hasattr(x, "comp") and (dt is None or (isinstance(dt, Const) and dt.value is None)):
             return as_v(ev, x)
         v = as_v(ev, x)
+        if getattr(ev, "mark_conversions", False) and isinstance(v, Sym) and "arraylike" in v.tags:
+            # effect analysis of caller-supplied sequences: the converted array is told apart from the raw argument (ndarray attributes of
+            # the CONVERTED value are fine); only used by rules that read events, not values
+            v = App("asarray", (v,))
         if dt is not None and not (isinstance(dt, Const) and dt.value is None):
             from .evalr import ExtV
             last = dt.dotted.split(".")[-1] if isinstance(dt, ExtV) else (dt.value if isinstance(dt, Const) and isinstance(dt.value, str) else None)
@@ -982,6 +989,13 @@ def value_attr(ev, v, name, node):
     if name not in SEQUENCE_OK:
         _raw_sequence_use(ev, v, "." + name, node)
 
+    if name == "kind" and isinstance(v, App) and v.fn == "attr:dtype" and v.args:
+        src = strip_fresh(v.args[0])
+        if isinstance(src, Sym):
+            # the dtype kind of a value whose type the rule declares (a float significance level, an integer count)
+            for tg, k in (("float", "f"), ("int", "i"), ("bool", "b")):
+                if tg in src.tags and "array" not in src.tags:
+                    return Const(k)
     if isinstance(v, V) and name in VALUE_ATTRS:
         base = strip_fresh(v)
         if name in ("shape", "ndim", "size"):
